@@ -99,6 +99,44 @@ static int p_nth(void)          /* D24: does hostlist_nth print a name with a 90
     a = hostlist_nth(h, 1);
     return a && strlen(a) == 91 && a[90] == '2';
 }
+static int p_removedepth(void)  /* D19: after removing a one-host record the iterator goes on with the NEXT record */
+{
+    hostlist_t h = hostlist_create("a[1-3],b,c");
+    hostlist_iterator_t it;
+    char *x;
+    int k;
+    if (!h) return 2;
+    it = hostlist_iterator_create(h);
+    for (k = 0; k < 4; k++) x = hostlist_next(it);      /* a1 a2 a3 b */
+    if (!x || strcmp(x, "b")) return 2;
+    hostlist_remove(it);
+    x = hostlist_next(it);
+    if (x && !strcmp(x, "c")) return 1;
+    if (x && !strcmp(x, "a2")) return 0;
+    return 2;
+}
+static int p_popiter(void)      /* D20: pop of the record an iterator stands on, then push: the new host is seen */
+{
+    hostlist_t h = hostlist_create("x,y");
+    hostlist_iterator_t it;
+    char *x;
+    if (!h) return 2;
+    it = hostlist_iterator_create(h);
+    hostlist_next(it); hostlist_next(it);               /* x y */
+    free(hostlist_pop(h));
+    hostlist_push(h, "z");
+    x = hostlist_next(it);
+    return x && !strcmp(x, "z");
+}
+static int p_cmptrunc(void)     /* D26: uniq keeps records whose low bounds are 2^31 or more apart */
+{
+    hostlist_t h = hostlist_create("x[0-5],x[2147483653]");
+    int n;
+    if (!h) return 2;
+    hostlist_uniq(h);
+    n = hostlist_count(h);
+    return n == 7 ? 1 : n == 1 ? 0 : 2;
+}
 /* run a probe in a child: a crash / hang of the child means "recorded defect" (0) */
 static int probe(int (*f)(void))
 {
@@ -146,5 +184,8 @@ int main(void)
     bad |= lean_bool("FIX_D22_SUFFIXBAL", probe(p_suffixbal));
     bad |= lean_bool("FIX_D23_HOSTBUF", probe(p_hostbuf));
     bad |= lean_bool("FIX_D24_NTH", probe(p_nth));
+    bad |= lean_bool("FIX_D19_REMOVEDEPTH", probe(p_removedepth));
+    bad |= lean_bool("FIX_D20_POPITER", probe(p_popiter));
+    bad |= lean_bool("FIX_D26_CMPTRUNC", probe(p_cmptrunc));
     return bad;
 }
